@@ -1,4 +1,4 @@
-import Tea.Proofs.Inline
+import Tea.Proofs.InlineQ
 /-
 Entering the alt screen from the inline view, doing anything there, and leaving it again: the
 main screen, its window and its cursor come back exactly as they were, and the renderer still
@@ -47,8 +47,7 @@ theorem alt_step_keeps (r : RState) (t : Term) (h : AltInv r t) (op : ROp)
   | enterAlt =>
     show (applyOps t (enterAlt r).2).main = t.main ∧ (enterAlt r).1.linesRendered = r.linesRendered ∧
       (enterAlt r).1.queued = r.queued ∧ (enterAlt r).1.width = r.width ∧ (enterAlt r).1.height = r.height
-    have e : enterAlt r = (r, []) := by simp [enterAlt, h.alt]
-    rw [e]
+    rw [enterAlt_active r h.alt]
     exact ⟨rfl, rfl, rfl, rfl, rfl⟩
   | printLine body =>
     have e : step r (.printLine body) = (r, []) := by simp [step, h.alt]
@@ -89,19 +88,68 @@ theorem alt_run_keeps (ops : List ROp) : ∀ (r : RState) (t : Term), AltInv r t
     rw [e1, e2]
     exact ⟨i1, i2.trans k1, i3.trans k2, i4.trans k3, i5.trans k4, i6.trans k5⟩
 
-/-- entering the alt screen from the main screen: the main buffer keeps its cells, window and
-cursor, and remembers the cursor (row relative to the window, column, pending wrap) -/
+/-- the four switching operations on a terminal that is on the main screen: the main buffer keeps
+its cells, window and cursor, and remembers the cursor (row relative to the window, column,
+pending wrap) -/
+theorem switchOps_main (t : Term) (hidden : Bool) (hon : t.onAlt = false) :
+    (applyOps t (switchOps hidden)).main.cells = t.main.cells ∧
+    (applyOps t (switchOps hidden)).main.top = t.main.top ∧
+    (applyOps t (switchOps hidden)).main.sr = t.main.cr - t.main.top ∧
+    (applyOps t (switchOps hidden)).main.sc = t.main.cc ∧
+    (applyOps t (switchOps hidden)).main.spw = t.main.pw := by
+  cases hidden <;>
+    simp [switchOps, cursorOp, applyOps, apply, setMode, Term.setBuf, Term.buf, hon]
+
+/-- the render that precedes the switch stays on the main screen at the same size -/
+theorem preAlt_term (r : RState) (t : Term) :
+    (applyOps t (preAlt r).2).onAlt = t.onAlt ∧ (applyOps t (preAlt r).2).w = t.w ∧
+    (applyOps t (preAlt r).2).h = t.h ∧
+    (t.onAlt = false → (applyOps t (preAlt r).2).alt = t.alt) := by
+  obtain ⟨a1, a2, a3, _, _, a6⟩ := applyOps_bufOps (preAlt r).2 t (preAlt_bufOps r)
+  exact ⟨a3, a1, a2, a6⟩
+
+/-- entering the alt screen from the main screen: the main buffer is the one left by the render
+that brings it up to date (`preAlt`: nothing when no printed line is queued) — its cells, window
+and cursor are kept, and it remembers the cursor (row relative to the window, column, pending
+wrap).
+
+Before the repair of `enterAlt` (no render first) the statement was the same with `t` in place of
+`applyOps t (preAlt r).2`; it is that statement when `r.queued = []` (`enterAlt_main_noq`). -/
 theorem enterAlt_main (r : RState) (t : Term) (ha : r.altActive = false) (hon : t.onAlt = false) :
+    (applyOps t (enterAlt r).2).main.cells = (applyOps t (preAlt r).2).main.cells ∧
+    (applyOps t (enterAlt r).2).main.top = (applyOps t (preAlt r).2).main.top ∧
+    (applyOps t (enterAlt r).2).main.sr =
+      (applyOps t (preAlt r).2).main.cr - (applyOps t (preAlt r).2).main.top ∧
+    (applyOps t (enterAlt r).2).main.sc = (applyOps t (preAlt r).2).main.cc ∧
+    (applyOps t (enterAlt r).2).main.spw = (applyOps t (preAlt r).2).main.pw := by
+  rw [enterAlt_ops r ha, applyOps_append]
+  exact switchOps_main _ _ (by rw [(preAlt_term r t).1, hon])
+
+theorem enterAlt_main_noq (r : RState) (t : Term) (ha : r.altActive = false) (hon : t.onAlt = false)
+    (hq : r.queued = []) :
     (applyOps t (enterAlt r).2).main.cells = t.main.cells ∧
     (applyOps t (enterAlt r).2).main.top = t.main.top ∧
     (applyOps t (enterAlt r).2).main.sr = t.main.cr - t.main.top ∧
     (applyOps t (enterAlt r).2).main.sc = t.main.cc ∧
     (applyOps t (enterAlt r).2).main.spw = t.main.pw := by
-  have ho : (enterAlt r).2 = [.decset 1049, .ed2, .home, cursorOp r.cursorHidden] := by
-    simp [enterAlt, ha]
-  rw [ho]
-  cases r.cursorHidden <;>
-    simp [cursorOp, applyOps, apply, setMode, Term.setBuf, Term.buf, hon]
+  have := enterAlt_main r t ha hon
+  rw [preAlt_noq r hq] at this
+  exact this
+
+/-- **The render before the switch keeps the inline invariant**: from an inline view, `preAlt` (one
+ordinary flush when printed lines are queued) leaves renderer and terminal inline, at the same
+size, with the alt buffer untouched. -/
+theorem preAlt_inline (r : RState) (t : Term) (hinv : InlineInv r t) :
+    InlineInv (preAlt r).1 (applyOps t (preAlt r).2) ∧
+    (applyOps t (preAlt r).2).alt = t.alt ∧
+    (applyOps t (preAlt r).2).w = t.w ∧ (applyOps t (preAlt r).2).h = t.h := by
+  obtain ⟨_, p2, p3, p4⟩ := preAlt_term r t
+  refine ⟨?_, p4 hinv.onAlt, p2, p3⟩
+  rcases preAlt_cases r with h | h <;> rw [h]
+  · exact hinv
+  · cases hne : (r.buf.isEmpty || r.buf == r.lastRender) with
+    | true => rw [flush_noop r hne]; exact hinv
+    | false => exact (inline_flushQ_inv r t hinv hne).1
 
 /-- leaving the alt screen: back on the main screen, whose cells and window are untouched and
 whose cursor goes back to the remembered position; the size and the alt buffer stay -/
@@ -125,62 +173,99 @@ theorem exitAlt_state (r : RState) (ha : r.altActive = true) :
 
 /-- **Alt-screen round trip.**  From an inline view (`InlineInv r t`): enter the alt screen, run
 any `altStable` history there (views, flushes, prints, modes, ClearScreen, repaints), leave it.
-The inline invariant holds again; the queue of printed lines is what it was; the main screen has
-exactly the cells, the window and the cursor row it had; the renderer remembers how many lines
-the inline view had; and the line cache is invalid. -/
+Entering first brings the main screen up to date (`preAlt`: one ordinary flush when printed lines
+are queued — they and the pending view are painted on the main screen — and nothing otherwise);
+call the renderer and the terminal after that `r0`, `t0`.  Then: the inline invariant holds again;
+the queue of printed lines is the queue of `r0`; the main screen has exactly the cells, the window
+and the cursor row of `t0`; the renderer remembers how many lines the inline view of `r0` had; and
+the line cache is invalid.
+
+(Before the repair of `enterAlt` the statement read `r`, `t` for `r0`, `t0`: the queue was carried
+through the alt screen.  With `r.queued = []` nothing has changed: `alt_roundtrip_noq`.) -/
 theorem alt_roundtrip (r : RState) (t : Term) (hinv : InlineInv r t) (ops : List ROp)
     (hs : ∀ o ∈ ops, altStable o = true) :
+    let r0 := (preAlt r).1
+    let t0 := applyOps t (preAlt r).2
     let r1 := (enterAlt r).1
     let t1 := applyOps t (enterAlt r).2
     let r2 := (run r1 ops).1
     let t2 := (run r1 ops).2.foldl applyOps t1
     let r3 := (exitAlt r2).1
     let t3 := applyOps t2 (exitAlt r2).2
-    InlineInv r3 t3 ∧ r3.queued = r.queued ∧ t3.main.cells = t.main.cells ∧
-    t3.main.top = t.main.top ∧ t3.main.cr = t.main.cr ∧
-    r3.linesRendered = r.linesRendered ∧ r3.lastLines = none ∧
+    InlineInv r3 t3 ∧ r3.queued = r0.queued ∧ t3.main.cells = t0.main.cells ∧
+    t3.main.top = t0.main.top ∧ t3.main.cr = t0.main.cr ∧
+    r3.linesRendered = r0.linesRendered ∧ r3.lastLines = none ∧
     t3.w = t.w ∧ t3.h = t.h := by
-  intro r1 t1 r2 t2 r3 t3
+  intro r0 t0 r1 t1 r2 t2 r3 t3
+  obtain ⟨hinv0, _, hw0, hh0⟩ : InlineInv r0 t0 ∧ t0.alt = t.alt ∧ t0.w = t.w ∧ t0.h = t.h :=
+    preAlt_inline r t hinv
   have h1 : AltInv r1 t1 :=
     enterAlt_inv r t hinv.alt hinv.onAlt hinv.width hinv.height hinv.wpos hinv.hpos
-  obtain ⟨m1, m2, m3, m4, m5⟩ := enterAlt_main r t hinv.alt hinv.onAlt
-  have hr1 : r1 = ({ r with altActive := true, altLinesRendered := 0 } : RState).repaint := by
-    show (enterAlt r).1 = _
-    simp [enterAlt, hinv.alt]
+  obtain ⟨m1, m2, m3, m4, m5⟩ : t1.main.cells = t0.main.cells ∧ t1.main.top = t0.main.top ∧
+      t1.main.sr = t0.main.cr - t0.main.top ∧ t1.main.sc = t0.main.cc ∧ t1.main.spw = t0.main.pw :=
+    enterAlt_main r t hinv.alt hinv.onAlt
+  obtain ⟨e6, e7, e11, e12⟩ : r1.queued = r0.queued ∧ r1.linesRendered = r0.linesRendered ∧
+      r1.width = r.width ∧ r1.height = r.height := by
+    obtain ⟨_, _, _, _, _, e6, e7, _, _, _, e11, e12⟩ := enterAlt_fields r hinv.alt
+    exact ⟨e6, e7, e11, e12⟩
+  obtain ⟨p5, p6⟩ : r0.width = r.width ∧ r0.height = r.height := (preAlt_keeps r).2.2.2.2
   obtain ⟨h2, k1, k2, k3, k4, k5⟩ := alt_run_keeps ops r1 t1 h1 hs
   obtain ⟨x1, x2, x3, x4, x5, x6, x7, x8⟩ := exitAlt_main r2 t2 h2.alt h2.onAlt
   have hr3 : r3 = ({ r2 with altActive := false } : RState).repaint := exitAlt_state r2 h2.alt
-  have f1 : r3.linesRendered = r.linesRendered := by rw [hr3]; show r2.linesRendered = _; rw [k2, hr1]; rfl
-  have f2 : r3.queued = r.queued := by rw [hr3]; show r2.queued = _; rw [k3, hr1]; rfl
-  have f3 : r3.width = r.width := by rw [hr3]; show r2.width = _; rw [k4, hr1]; rfl
-  have f4 : r3.height = r.height := by rw [hr3]; show r2.height = _; rw [k5, hr1]; rfl
+  have f1 : r3.linesRendered = r0.linesRendered := by
+    rw [hr3]; show r2.linesRendered = _; rw [k2]; exact e7
+  have f2 : r3.queued = r0.queued := by rw [hr3]; show r2.queued = _; rw [k3]; exact e6
+  have f3 : r3.width = r0.width := by rw [hr3]; show r2.width = _; rw [k4, p5]; exact e11
+  have f4 : r3.height = r0.height := by rw [hr3]; show r2.height = _; rw [k5, p6]; exact e12
   have f5 : r3.lastLines = none := by rw [hr3]; rfl
   have f6 : r3.lastRender = [] := by rw [hr3]; rfl
   have f7 : r3.altActive = false := by rw [hr3]; rfl
-  have g1 : r1.width = r.width := by rw [hr1]; rfl
-  have g2 : r1.height = r.height := by rw [hr1]; rfl
-  have hw3 : t3.w = t.w := by
-    rw [x2, ← h2.width, k4, g1]; exact hinv.width
-  have hh3 : t3.h = t.h := by
-    rw [x3, ← h2.height, k5, g2]; exact hinv.height
-  have hin := hinv.inside
-  have c1 : t3.main.cells = t.main.cells := by rw [x4, k1, m1]
-  have c2 : t3.main.top = t.main.top := by rw [x5, k1, m2]
-  have c3 : t3.main.cr = t.main.cr := by rw [x6, k1, m2, m3]; omega
-  have c4 : t3.main.cc = 0 := by rw [x7, k1, m4]; exact hinv.col.1
-  have c5 : t3.main.pw = false := by rw [x8, k1, m5]; exact hinv.col.2
-  refine ⟨⟨f7, x1, by rw [f3, hw3]; exact hinv.width, by rw [f4, hh3]; exact hinv.height,
-    by rw [hw3]; exact hinv.wpos, by rw [hh3]; exact hinv.hpos, ⟨c4, c5⟩, ?_, ?_, ?_, ?_⟩,
-    f2, c1, c2, c3, f1, f5, hw3, hh3⟩
+  have hw3 : t3.w = t0.w := by
+    rw [x2, ← h2.width, k4]; exact e11.trans (hinv.width.trans hw0.symm)
+  have hh3 : t3.h = t0.h := by
+    rw [x3, ← h2.height, k5]; exact e12.trans (hinv.height.trans hh0.symm)
+  have hin := hinv0.inside
+  have c1 : t3.main.cells = t0.main.cells := by rw [x4, k1, m1]
+  have c2 : t3.main.top = t0.main.top := by rw [x5, k1, m2]
+  have c3 : t3.main.cr = t0.main.cr := by rw [x6, k1, m2, m3]; omega
+  have c4 : t3.main.cc = 0 := by rw [x7, k1, m4]; exact hinv0.col.1
+  have c5 : t3.main.pw = false := by rw [x8, k1, m5]; exact hinv0.col.2
+  refine ⟨⟨f7, x1, by rw [f3, hw3]; exact hinv0.width, by rw [f4, hh3]; exact hinv0.height,
+    by rw [hw3]; exact hinv0.wpos, by rw [hh3]; exact hinv0.hpos, ⟨c4, c5⟩, ?_, ?_, ?_, ?_⟩,
+    f2, c1, c2, c3, f1, f5, hw3.trans hw0, hh3.trans hh0⟩
   · rw [c2, c3, f1, hh3]; exact hin
   · intro ρ hρ hρ2 c hc
     rw [c3] at hρ
     rw [c2, hh3] at hρ2
     rw [hw3] at hc
     rw [c1]
-    exact hinv.below ρ hρ hρ2 c hc
+    exact hinv0.below ρ hρ hρ2 c hc
   · intro ls hls; rw [f5] at hls; cases hls
   · intro hne; exact absurd f6 hne
+
+/-- the round trip with nothing queued (the statement as it was before the repair of `enterAlt`):
+everything is relative to `r`, `t` themselves -/
+theorem alt_roundtrip_noq (r : RState) (t : Term) (hinv : InlineInv r t) (hq : r.queued = [])
+    (ops : List ROp) (hs : ∀ o ∈ ops, altStable o = true) :
+    let r1 := (enterAlt r).1
+    let t1 := applyOps t (enterAlt r).2
+    let r2 := (run r1 ops).1
+    let t2 := (run r1 ops).2.foldl applyOps t1
+    let r3 := (exitAlt r2).1
+    let t3 := applyOps t2 (exitAlt r2).2
+    InlineInv r3 t3 ∧ r3.queued = [] ∧ t3.main.cells = t.main.cells ∧
+    t3.main.top = t.main.top ∧ t3.main.cr = t.main.cr ∧
+    r3.linesRendered = r.linesRendered ∧ r3.lastLines = none ∧
+    t3.w = t.w ∧ t3.h = t.h := by
+  have h := alt_roundtrip r t hinv ops hs
+  rw [preAlt_noq r hq] at h
+  simp only [applyOps_nil] at h
+  rw [hq] at h
+  exact h
+
+/-- a row is a function of the cells -/
+theorem row_of_cells {b b' : Buf} (h : b'.cells = b.cells) (w R : Nat) : b'.row w R = b.row w R := by
+  unfold Buf.row; rw [h]
 
 /-- after the round trip the inline view starts where it started before -/
 theorem viewTop_congr {r r' : RState} {t t' : Term} (h1 : r'.linesRendered = r.linesRendered)
